@@ -25,7 +25,7 @@ EXPLANATION = (
     "are read only through the typed getters, and an exception is raised only inside a function handed to the "
     "getter as valid_value_fn (so that lenient mode can fall back to the default); R17d for every rule the "
     "documentation page agrees with the code on aliases, enabled-by-default, configuration prefixes and, "
-    "per configuration item, name, type and literal default. Not decided: the value-level behaviour of the "
+    "per configuration item, name, type and literal default; R17e nothing reads the properties before every layer is applied. Not decided: the value-level behaviour of the "
     "application_properties library (layer override, type coercion, strict-mode errors)."
 )
 ASSUMPTIONS = [
@@ -422,3 +422,6 @@ def run(ctx: Context) -> None:
     r17b(ctx)
     r17c(ctx)
     r17d(ctx)
+    from sa.rules import c18
+
+    c18.config_read_after_load(ctx, "R17e")
